@@ -96,8 +96,8 @@ func (schemaCompiler) orConstraint(node schema.Node) {
 	}
 	if typeConstraint := node.Constraint(constraint.TypeConstraintType); typeConstraint != nil {
 		n--
-		if t := typeConstraint.(*constraint.TypeConstraint).Bytes().String(); t != `"mixed"` {
-			panic(errors.Format(errors.ErrInvalidValueInTheTypeRule, t))
+		if t := typeConstraint.(*constraint.TypeConstraint).Bytes(); t.Unquote().String() != "mixed" {
+			panic(errors.Format(errors.ErrInvalidValueInTheTypeRule, t.String()))
 		}
 	}
 	if n != 0 {
@@ -175,8 +175,8 @@ func (schemaCompiler) enumConstraint(node schema.Node) {
 	}
 	if typeConstraint := node.Constraint(constraint.TypeConstraintType); typeConstraint != nil {
 		n--
-		if t := typeConstraint.(*constraint.TypeConstraint).Bytes().String(); t != `"enum"` {
-			panic(errors.Format(errors.ErrInvalidValueInTheTypeRule, t))
+		if t := typeConstraint.(*constraint.TypeConstraint).Bytes(); t.Unquote().String() != "enum" {
+			panic(errors.Format(errors.ErrInvalidValueInTheTypeRule, t.String()))
 		}
 	}
 	if n != 0 {
